@@ -108,7 +108,7 @@ def signature(case, impl_obs, model_obs):
 
 
 PART = {"name": "tsan", "harness": "tsan_c03.cpp", "gen": gen, "compiler": "clang++",
-        "flags": "-O1 -g -DNDEBUG -fsanitize=thread -fno-omit-frame-pointer", "no_shrink": True, "timeout_case": 30}
+        "flags": "-O1 -g -DNDEBUG -fsanitize=thread -fno-omit-frame-pointer", "no_shrink": True, "timeout_case": 15}
 PARTS = [PART]
 
 
@@ -138,7 +138,7 @@ def search(ctx, sids, factor):
     if not ok:
         return
     cases = [Case("tsan", "search_s%d_%d" % (sid, r), [[sid, 150 * factor]]) for sid in sids for r in range(3)]
-    impl, diag = vlib.run_impl(binary, cases, ctx.tmp, timeout_case=60)
+    impl, diag = vlib.run_impl(binary, cases, ctx.tmp, timeout_case=30)
     for c in cases:
         i = impl.get(c.name, ["MISSING"])
         ctx.cov["evaluations"] += 1
